@@ -19,7 +19,7 @@ from .selftest import V
 from . import states, flow
 
 MIRROR = {ast.Lt: ">", ast.LtE: ">=", ast.Gt: "<", ast.GtE: "<=", ast.Eq: "==", ast.NotEq: "!="}
-NEIGHBOUR = {ast.Lt: "<=", ast.LtE: "<", ast.Gt: ">=", ast.GtE: ">", ast.Eq: "<=", ast.NotEq: "<"}
+NEIGHBOUR = {ast.Lt: "<=", ast.LtE: "<", ast.Gt: ">=", ast.GtE: ">", ast.Eq: "<", ast.NotEq: "<"}
 OPTXT = {ast.Lt: "<", ast.LtE: "<=", ast.Gt: ">", ast.GtE: ">=", ast.Eq: "==", ast.NotEq: "!="}
 
 
@@ -31,7 +31,7 @@ def _pos(node: ast.AST):
     return (node.lineno, node.col_offset, node.end_lineno, node.end_col_offset)
 
 
-def guard_variants(repo: Repo, which: str) -> List[V]:
+def guard_variants(repo: Repo, which: str, skip=()) -> List[V]:
     """which: 'LOC' (geoid comparisons, route_cooresponds_with_entities) | 'MEM' (grant_access_to_membership)"""
     out: List[V] = []
     for sc in states.state_classes(repo):
@@ -52,6 +52,8 @@ def guard_variants(repo: Repo, which: str) -> List[V]:
             rejecting = any(isinstance(s, ast.Return) for s in node.body) and not any(
                 isinstance(s, ast.Return) and isinstance(s.value, ast.Call) for s in node.body)
             tag = f"{sc.name}.enter:{node.lineno}"
+            if any(k in tag for k in skip):
+                continue
             if rejecting:
                 out.append(V(f"auto-{which}-drop-{tag}", fn.relpath, seg, "False", kind="break", rule="GD", pos=_pos(t)))
                 neg = seg[4:] if seg.startswith("not ") and not (" and " in seg or " or " in seg) else f"not ({seg})"
@@ -88,8 +90,9 @@ def resource_variants(repo: Repo, kinds) -> List[V]:
     return out
 
 
-def compare_variants(repo: Repo, sites, rule: Optional[str] = "CMP") -> List[V]:
-    """sites: iterable of (relpath, qualname). One neighbour-operator fault and one mirrored twin per comparison."""
+def compare_variants(repo: Repo, sites, rule: Optional[str] = "CMP", skip=()) -> List[V]:
+    """sites: iterable of (relpath, qualname). One neighbour-operator fault and one mirrored twin per comparison.
+    `skip`: name fragments of computed faults known to be equivalent under the specification (reason at the call site)."""
     out: List[V] = []
     for rel, qn in sites:
         fn = repo.func_opt(rel, qn)
@@ -103,6 +106,7 @@ def compare_variants(repo: Repo, sites, rule: Optional[str] = "CMP") -> List[V]:
                     continue
                 op = type(node.ops[0])
                 tag = f"{qn}:{node.lineno}:{node.col_offset}"
-                out.append(V(f"auto-CMP-neighbour-{tag}", rel, seg, f"{l} {NEIGHBOUR[op]} {r}", kind="break", rule=rule, pos=_pos(node)))
+                if not any(k in tag for k in skip):
+                    out.append(V(f"auto-CMP-neighbour-{tag}", rel, seg, f"{l} {NEIGHBOUR[op]} {r}", kind="break", rule=rule, pos=_pos(node)))
                 out.append(V(f"auto-CMP-twin-mirror-{tag}", rel, seg, f"{r} {MIRROR[op]} {l}", kind="twin", pos=_pos(node)))
     return out
